@@ -288,7 +288,8 @@ class Gen:
                 self.twin(kind, ["tok_val"], rng.choice(rets), recv=recv)
                 self.twin(kind, [], rng.choice(rets), recv=recv, attr={"skip": ["self"], "ret": "debug"})
         # systematic: async fns returning another future; the helper-fn shape with each receiver
-        for args in (["tok_val"], ["tok_ref", "flag"], []):
+        # (Copy arguments only: a mis-expansion that moves the arguments into the returned future must still compile to be caught)
+        for args in (["flag"], ["flag"], []):
             self.twin("async", args, "factory")
             self.twin("async", args, "factory", attr={"level": 2, "name": True})
         for recv in ("ref", "mut", "val"):
